@@ -94,7 +94,36 @@ DenseBlock(c, w) ==
 (* the CSR format invariants (docs/schema_v3.rst)                             *)
 \* run-length index: offset[i] (i = 0..n, stored 1-based) = number of rows with key < i
 RLIndex(keys, n) == [i \in 1..(n + 1) |-> Cardinality({k \in DOMAIN keys : keys[k] < i - 1})]
-\* raw: [nbins, nchroms, nnz, sum, mode, bintype, binsize, table, bin1, bin2, count,
-\*       bin1_offset, chrom_offset, lens: <<len(col)...>>, chromlens, chromnames?]
+\* A raw collection as projected from the HDF5 file (harness/project.py):
+\*   [nbins, nchroms, nnz, sum, mode ("symmetric-upper" | "square"), bintype, binsize (0 = null),
+\*    table (<<chrom,start,end>>...), chromlens, nnames, bin1, bin2, count, hascount,
+\*    lens (length of every pixel column), bin1_offset, chrom_offset]
 PixelsOf(raw) == [k \in DOMAIN raw.bin1 |-> <<raw.bin1[k], raw.bin2[k]>>]
+ChromCol(t) == [k \in DOMAIN t |-> t[k][1]]
+\* the clauses of ValidCSR, individually named so that a rejection says which part of the schema broke
+CSR_LengthsEqualNnz(r) == /\ \A k \in DOMAIN r.lens : r.lens[k] = r.nnz
+                          /\ Len(r.bin1) = r.nnz /\ Len(r.bin2) = r.nnz
+CSR_StrictlySorted(r)  == StrictlySorted(PixelsOf(r))
+CSR_InRange(r)         == \A k \in DOMAIN r.bin1 :
+                             /\ 0 <= r.bin1[k] /\ r.bin1[k] < r.nbins
+                             /\ 0 <= r.bin2[k] /\ r.bin2[k] < r.nbins
+CSR_UpperIfSymm(r)     == r.mode = "symmetric-upper" => \A k \in DOMAIN r.bin1 : r.bin1[k] <= r.bin2[k]
+CSR_ModeKnown(r)       == r.mode \in {"symmetric-upper", "square"}
+CSR_Bin1Offset(r)      == r.bin1_offset = RLIndex(r.bin1, r.nbins)
+CSR_ChromOffset(r)     == r.chrom_offset = RLIndex(ChromCol(r.table), r.nchroms)
+CSR_Counts(r)          == /\ r.nbins = Len(r.table)
+                          /\ r.nchroms = NChroms(r.table)
+                          /\ r.nchroms = Len(r.chromlens) /\ r.nchroms = r.nnames
+CSR_TableValid(r)      == ValidTable(r.table) /\ r.chromlens = ChromLenSeq(r.table)
+CSR_Sum(r)             == r.hascount => r.sum = SumSeq(r.count)
+CSR_BinType(r)         == /\ r.bintype \in {"fixed", "variable"}
+                          /\ (r.bintype = "fixed") = (r.binsize # 0)
+                          /\ r.binsize # 0 => TrulyFixed(r.table, r.binsize)
+CSRClauses(r) ==
+  << <<"lengthsEqualNnz", CSR_LengthsEqualNnz(r)>>, <<"strictlySorted", CSR_StrictlySorted(r)>>,
+     <<"inRange", CSR_InRange(r)>>, <<"upperIfSymm", CSR_UpperIfSymm(r) /\ CSR_ModeKnown(r)>>,
+     <<"bin1OffsetIsRLE", CSR_Bin1Offset(r)>>, <<"chromOffsetIsRLE", CSR_ChromOffset(r)>>,
+     <<"countsAgree", CSR_Counts(r)>>, <<"tableValid", CSR_TableValid(r)>>,
+     <<"sumAgrees", CSR_Sum(r)>>, <<"binTypeAgrees", CSR_BinType(r)>> >>
+ValidCSR(r) == \A k \in DOMAIN CSRClauses(r) : CSRClauses(r)[k][2]
 =============================================================================
